@@ -73,7 +73,7 @@ def run_tlc(module, cfg_text, *, workers=None, simulate=None, depth=None, seed=N
         with open(os.path.join(tmp, module + ".cfg"), "w") as fh:
             fh.write(cfg_text)
         if heap is None:      # trace validation is linear and small; model checking gets more
-            heap = "1500m" if module.startswith("Trace_") else "6g"
+            heap = "3g" if module.startswith("Trace_") else "6g"
         cmd = ["java", "-XX:+UseParallelGC", "-Xss64m", "-Xmx" + heap] + (java_opts or []) + [
             "-cp", TLC_JAR, "tlc2.TLC", "-workers", str(workers), "-metadir",
             os.path.join(tmp, "meta"), "-noGenerateSpecTE"]
